@@ -21,7 +21,7 @@ from sim.coordinator import PY, Pool, default_workers, zygote_env  # noqa: E402
 from sim.minimise import Minimiser  # noqa: E402
 
 BUDGET = {  # wall-clock budgets in seconds per phase
-    "quick": {"random": 35, "xproc": 200, "crash_jobs": {"C17": 14, "C18": 80}, "sweep_len": 2},
+    "quick": {"random": 30, "xproc": 200, "crash_jobs": {"C17": 14, "C18": 40}, "sweep_len": 2},
     "thorough": {"random": 540, "xproc": 4000, "crash_jobs": {"C17": 10**6, "C18": 10**6}, "sweep_len": 3},
 }
 
@@ -230,6 +230,24 @@ def finalize_violation(run, pool, job, res, known):
     ('violation', path) | ('harness', msg)."""
     viol = res["violation"]
     prog = res.get("program")
+    if res.get("pair"):
+        # history-independence conflict: the replay is the PAIR of histories; verified in fresh interpreters
+        rdir = replay_dir()
+        os.makedirs(rdir, exist_ok=True)
+        tag = str(job.get("run_seed")).replace(":", "_").replace("+", "_")[:80]
+        path = os.path.join(rdir, "%s-%s-pair.json" % (run.prop, tag))
+        key = viol["detail"]["call"]
+        ra = fresh_interpreter_run(res["pair"][0], run.prop)
+        rb = fresh_interpreter_run(res["pair"][1], run.prop, hashseed="321")
+        da, db = (ra.get("call_results") or {}).get(key), (rb.get("call_results") or {}).get(key)
+        rec = {"property": run.prop, "verif_seed": run.seed, "tier": run.tier, "pair": res["pair"], "call": key,
+               "violation": viol, "fresh_interpreter_replay": {"digest_a": da, "digest_b": db,
+                                                               "identical": bool(da and db and da != db)},
+               "how_to_replay": "./check replay %s" % path}
+        json.dump(rec, open(path, "w"), indent=1, default=str)
+        if not (da and db and da != db):
+            return "harness", "nondeterministic replay (I-HISTORY): %s" % path
+        return "violation", path
     if prog is None or "steps" not in prog:
         prog = prog or {}
         mres = res
